@@ -31,7 +31,7 @@ def plan(tier, seed):
 
 
 def required(tier):
-    return {"linearity": 25, "theta-scaling": 60, "refsize-integrator": 30, "refsize-phi_1D": 25, "refsize-program": 5,
+    return {"linearity": 25, "theta-scaling": 60, "refsize-integrator": 30, "refsize-phi_1D": 25, "refsize-program": 5, "time-shift-invariant": 20,
             "linearity-program": 5}
 
 
@@ -150,6 +150,13 @@ def run_integ(spec, rec, Integration, kind):
                 ref = a * np.asarray(r1) + b * np.asarray(r2)
                 sc = max(np.max(np.abs(a * np.asarray(r1))), np.max(np.abs(b * np.asarray(r2))), 1e-300)
                 rec.close("linearity", relerr(r3, ref, scale=sc), TOL, site=site, tags=tags)
+            if timevar:
+                # the clock is arbitrary: starting the same run at initial_t = t0 with every time function shifted by t0 changes nothing
+                t0 = float(rng.uniform(0.3, 3) * T)
+                kws = {k: ((lambda t, g=v, t0=t0: g(t - t0)) if callable(v) else v) for k, v in kw.items()}
+                oks, rs = rec.noraise("driver-returns", lambda: f(phi1.copy(), xx, t0 + T, initial_t=t0, theta0=th1, **kws), site=site, tags=tags)
+                if ok1 and oks:
+                    rec.close("time-shift-invariant", relerr(rs, r1), 1e-8, site=site, tags=tags)
             cfac = float(rng.uniform(0.1, 10))
             ok4, r4 = rec.noraise("driver-returns", lambda: f(cfac * phi1, xx, T, theta0=cfac * th1, **kw), site=site, tags=tags)
             if ok1 and ok4:
